@@ -227,6 +227,12 @@ def spill_zone(i, footer, last, last_type=2):
     return "gen/special-spill-%d-%s" % (i, footer.decode().replace("/", "_")), tzif(3, trans, types, footer)
 
 
+def late_zone(i, footer, last):
+    """Recorded data that end shortly below +2^59 (the largest instant the loader accepts): the 400 generated rule years pass it."""
+    types = [(-17762, False, b"LMT"), (-18000, False, b"EST"), (-14400, True, b"EDT")]
+    return "gen/special-late-%d-%s" % (i, footer.decode().replace("/", "_")), tzif(2, [(-2000000000, 1), (last - 86400 * 150, 2), (last, 1)], types, footer)
+
+
 def fresh_types_zone(i, footer):
     """The recorded data use types the footer does not (the loader has to create the footer's types itself)."""
     types = [(-1234, False, b"LMT"), (-18000, False, b"OLD")]
@@ -275,6 +281,7 @@ def write_corpus(outdir, seed, n):
               old_zone(6, b"EST5EDT,M3.2.0,M11.1.0", -68500000000), old_zone(7, b"EST5EDT,M3.2.0,M11.1.0", -24299000000)]
     # 2000-01-02: inside the spill of the 1999 period of "J100/0,J365/167" (ends 2000-01-06T22:00Z); a no-op entry and a real one
     items += [spill_zone(0, b"AAA0BBB,J100/0,J365/167", 946771200), spill_zone(1, b"AAA0BBB,J100/0,J365/100", 946771200)]
+    items += [late_zone(0, b"EST5EDT,M3.2.0,M11.1.0", 2 ** 59 - 100 * 365 * 86400), late_zone(1, b"EST5EDT,M3.2.0,M11.1.0", 2 ** 59 - 86400)]
     items += [fresh_types_zone(0, b"NEW5NDT,0/-6,0/-2"), fresh_types_zone(1, b"NEW5NDT,M3.2.0,M11.1.0"), fresh_types_zone(2, b"OLD5NDT,J338/11,M12.5.0")]
     items += [rand_zone(r, i) for i in range(n)]
     for name, data in items:
